@@ -69,6 +69,9 @@ def shard(i, n, args):
         e = fails.setdefault(key, {"count": 0, "witness": wit})
         e["count"] += 1
 
+    from .pyside import warm_all
+
+    res["warmup_classes"] = warm_all(py, mm, seed, reverse=bool(i % 2))
     deadline = time.time() + float(common.os.environ.get("VERIF_SHARD_BUDGET", "100000"))
     for root in ctx.select_roots(py, i, n):
         res["roots"] += 1
